@@ -7,6 +7,7 @@ import (
 	"fmt"
 	"sort"
 	"strings"
+	"sync"
 
 	"github.com/meshplus/bitxhub-kit/types"
 	"github.com/meshplus/bitxhub-model/pb"
@@ -42,4 +43,30 @@ func (exec *BlockExecutor) VerifTxRoot(txs []pb.Transaction) (*types.Hash, error
 
 func (exec *BlockExecutor) VerifReceiptRoot(rs []*pb.Receipt) (*types.Hash, error) {
 	return exec.calcReceiptMerkleRoot(rs)
+}
+
+// VerifPreExecute hands the committed block to the REAL pre-execute stage
+// (listenPreExecuteEvent, running on its own goroutine as in the node) and waits for what
+// that stage passes on to the execute stage. The harness decides when the execute stage
+// (VerifExecuteWrapped) runs relative to the pre-execute stage of the following block.
+func (exec *BlockExecutor) VerifPreExecute(ev *pb.CommitEvent) *BlockWrapper {
+	if _, started := verifPreStarted.LoadOrStore(exec, true); !started {
+		go exec.listenPreExecuteEvent()
+	}
+	exec.preBlockC <- ev
+	return <-exec.blockC
+}
+
+var verifPreStarted sync.Map
+
+// VerifStopStages ends the pre-execute stage goroutine started by VerifPreExecute.
+func (exec *BlockExecutor) VerifStopStages() {
+	if _, started := verifPreStarted.LoadAndDelete(exec); started {
+		exec.cancel()
+	}
+}
+
+// VerifExecuteWrapped is the body of the execute stage (listenExecuteEvent) for one block.
+func (exec *BlockExecutor) VerifExecuteWrapped(bw *BlockWrapper) {
+	exec.processExecuteEvent(bw)
 }
